@@ -10,6 +10,9 @@ pub trait ExAsRef<T: core::marker::PointeeSized>: core::marker::PointeeSized {
 pub uninterp spec fn as_ref_view<S: core::marker::PointeeSized, T: core::marker::PointeeSized>(s: &S) -> &T;
 pub open spec fn as_ref_bytes<S>(s: S) -> Seq<u8> { as_ref_view::<S, [u8]>(&s)@ }
 
+pub broadcast axiom fn axiom_vec_as_ref(v: Vec<u8>)
+    ensures #[trigger] as_ref_bytes(v) == v@;
+
 pub open spec fn be_val(s: Seq<u8>) -> nat decreases s.len() {
     if s.len() == 0 { 0 } else { be_val(s.drop_last()) * 256 + s.last() as nat }
 }
